@@ -18,7 +18,8 @@
 From Coq Require Import String List Bool NArith Lia.
 Import ListNotations.
 From Omega Require Import L6Past.PastSyntax L6Past.PastModel L6Past.PastSpec
-  L6Past.PastProofs L6Past.PastUntil L6Past.PastUntilProofs.
+  L6Past.PastProofs L6Past.PastUntil L6Past.PastUntilProofs
+  L6Past.PastCheck L6Past.PastFast L6Past.PastFastProofs.
 Open Scope string_scope.
 
 (* ---------------------------------------------------------------- main *)
@@ -90,7 +91,8 @@ Definition ex_q := FVar "q".
    nesting, since and historically *)
 Definition ex_f : form :=
   FBin OAnd (FBin OOr (FPrevW ex_p) (FPrevS ex_p))
-       (FSince (FHist (FPrevS (FConst true))) (FPrevW (FBin OImp ex_q (FOnce ex_p)))).
+       (FSince (FHist (FPrevS (FConst true)))
+               (FPrevW (FBin OImp ex_q (FOnce (FPrevW (FAtom "( x < 2 )")))))).
 
 Ltac no_clash_tac :=
   let v := fresh "v" in let Hv := fresh "Hv" in let Hin := fresh "Hin" in
@@ -103,7 +105,8 @@ Example C15_hypotheses_satisfiable :
   no_clash ex_f (x_names (translate true false ex_f)) /\
   (forall v, In v (vars ex_f) -> ~ generated v) /\
   x_names (translate true false ex_f)
-    = ["p_prev1"; "_aux1"; "_aux2"; "_aux3"; "_aux4"; "_aux5"; "_aux6"].
+    = ["p_prev1"; "_aux1"; "_aux2"; "_aux3"; "_aux4"; "_aux5"; "_aux6";
+       "_aux7"].
 Proof.
   split; [reflexivity|]. split; [|split; [|reflexivity]].
   - no_clash_tac.
@@ -111,11 +114,31 @@ Proof.
       repeat (destruct Hv as [<-|Hv]; [|]); try contradiction.
     all: try (apply (f_equal String.length) in Hu; unfold prev_name in Hu;
               rewrite length_append in Hu; simpl in Hu; lia).
+    all: try (apply (f_equal has_p) in Hu; rewrite has_p_prev in Hu;
+              discriminate Hu).
     all: unfold aux_name in Hi; simpl in Hi; discriminate.
 Qed.
 
-(* ------------------------------------------ the code before the fixes *)
 Definition sig0 : nat -> env := fun _ _ => false.
+
+(* the hypothesis no_clash is needed: with a user variable called p_prev1 the
+   history variable of p and the user variable are confused *)
+Example C15_hypothesis_needed :
+  let f := FBin OAnd (FVar "p_prev1") (FPrevW ex_p) in
+  let X := translate true false f in
+  let alpha : nat -> env := fun _ _ => true in
+  past_only f = true /\ ~ no_clash f (x_names X) /\
+  is_solution X sig0 alpha 1 /\
+  eval (comb (x_names X) sig0 alpha 0) (x_formula X) = true /\
+  sem f sig0 0 = false.
+Proof.
+  cbv zeta. split; [reflexivity|]. split.
+  - intros H. apply (H "p_prev1"); vm_compute; auto.
+  - split; [|split; reflexivity].
+    split; [reflexivity|]. intros i Hi. inversion Hi as [|? H]. inversion H.
+Qed.
+
+(* ------------------------------------------ the code before the fixes *)
 
 (* F5: the weak and the strong previous of p share `p_prev1`, the later
    initial condition overwrites the earlier one.  (--X p) /\ (-X p) is false
@@ -233,6 +256,17 @@ Proof.
                   ltac:(no_clash_tac) sig0)). exact R.
 Qed.
 
+(* ------------------------------------------------------ correspondence *)
+(* what the correspondence cases evaluate (PastFast: names resolved to
+   positions, one pass per sequence) is the comparison written with the plain
+   definitions above: on every sequence of length n of valuations of vs, the
+   model's solution satisfies the implementation's initial condition and
+   transition relation, and the implementation's translated formula, the
+   model's and `sem f` agree at every position *)
+Theorem C15_check_fast_is_plain : forall fx unt f I vs n,
+  check_all_fast fx unt f I vs n = check_all fx unt f I vs n.
+Proof. exact check_all_fast_correct. Qed.
+
 Print Assumptions C15_past_exact.
 Print Assumptions C15_user_names_suffice.
 Print Assumptions C15_testers_track.
@@ -241,3 +275,4 @@ Print Assumptions C15_generated_names_distinct.
 Print Assumptions C15_until_flag_irrelevant.
 Print Assumptions C15_until_partial.
 Print Assumptions C15_until_partial_exists.
+Print Assumptions C15_check_fast_is_plain.
